@@ -65,8 +65,10 @@ class Inputs:
         self.vars[name] = ("bool", vs, "bool")
         return vs
 
-    def values(self, name, n, dtype, nullable=True):
-        """cells for a value array of the given dtype class"""
+    def values(self, name, n, dtype, nullable=True, sum_safe=False):
+        """cells for a value array of the given dtype class.  sum_safe: 64-bit values are kept below 2^61/n in
+        magnitude (plus the null sentinel for temporal data), so that no partial sum leaves the 64-bit range or
+        hits the sentinel by arithmetic coincidence - overflow is outside every claim."""
         dt = real_np.dtype(dtype)
         if dt.kind == "f":
             return self.floats(name, n, nullable, dt)
@@ -77,7 +79,15 @@ class Inputs:
             lo = lo + 1          # plain int64 data excludes the library-wide null sentinel
         if dt.kind in "mM" and not nullable:
             lo = lo + 1
-        return self.ints(name, n, lo, hi, dt)
+        vs = self.ints(name, n, lo, hi, dt)
+        if sum_safe and dt.itemsize == 8 and self.concrete is None:
+            B = 2**61 // max(n, 1) if sum_safe != "squares" else 2**29
+            for v in vs:
+                inb = z3.And(v >= (0 if dt.kind == "u" else -B), v <= B)
+                if dt.kind in "mM" and nullable:
+                    inb = z3.Or(v == MIN_INT, inb)
+                self.pre.append(inb)
+        return vs
 
     def scalar_int(self, name, lo, hi):
         if self.concrete is not None:
@@ -170,12 +180,36 @@ def small_int_constraints(inputs, bound=8):
     return cs
 
 
+def uf_axioms(exprs):
+    """true facts about the uninterpreted squares occurring in exprs: sq(x) >= 0, 0 <= sqi(x) <= 2^58
+    (integer inputs of sum-of-squares cases are bounded by 2^29)"""
+    seen = set()
+    out = []
+    stack = [e for e in exprs if is_sym(e)]
+    while stack:
+        e = stack.pop()
+        i = e.get_id()
+        if i in seen:
+            continue
+        seen.add(i)
+        if z3.is_app(e):
+            n = e.decl().name()
+            if e.decl().kind() == z3.Z3_OP_UNINTERPRETED and e.num_args() == 1:
+                if n == "sq":
+                    out.append(e >= 0)
+                elif n == "sqi":
+                    out.append(z3.And(e >= 0, e <= 2**58))
+            stack.extend(e.children())
+    return out
+
+
 def decide(inputs, bads, rt=None, extra_pre=(), witnesses=(), check_obligations=True, timeout_ms=None,
            prefer_small=True):
     """bads: list of (label, condition-that-means-violation).  Returns Decision."""
     rt = rt or current()
     d = Decision()
     pre = list(inputs.pre) + list(rt.pre) + list(extra_pre)
+    pre += uf_axioms([b for _, b in bads] + [x for ob in rt.obligations for x in (ob[1], ob[2])])
     t0 = time.time()
     # ---- side obligations, one disjunction
     obs = rt.obligations if check_obligations else []
